@@ -28,6 +28,10 @@ def main():
     if cmd == "setup":
         return common.setup()
     if cmd == "replay":
+        rep = json.load(open(sys.argv[2]))
+        if rep.get("engine") == "journal":
+            import journal_engine
+            return journal_engine.replay(sys.argv[2])
         import cluster_engine
         return cluster_engine.replay(sys.argv[2])
     if cmd == "all":
